@@ -153,6 +153,11 @@ class Signal( NamedObject, Connectable ):
         # and not found: a field called like a method of the signal itself
         # ( s.x.inverse, s.x.get_type ... ) would silently be that method
         for name in Type.__bitstruct_fields__:
+          if name[0] == '_':
+            # the signal class takes every name that starts with an
+            # underscore for a private attribute of the signal
+            raise TypeError( f"Field '{name}' of bitstruct {Type.__name__} cannot be reached through a signal: "
+                             f"names that start with an underscore are private attributes of {type(s).__name__}. Please rename the field." )
           if hasattr( type(s), name ):
             raise TypeError( f"Field '{name}' of bitstruct {Type.__name__} cannot be reached through a signal: "
                              f"{type(s).__name__}.{name} is an attribute of every signal. Please rename the field." )
